@@ -42,7 +42,7 @@ def _run_variant(args):
     prop, kind, name, edits, want_rule = args
     from .__main__ import run_check
 
-    if kind == "seeded":
+    if kind in ("seeded", "refactor"):
         from .patching import overlays_from_patch
         overlays = overlays_from_patch(ROOT, edits)
     else:
@@ -96,6 +96,22 @@ def seeded_jobs(prop: str):
     return jobs
 
 
+def refactor_jobs(prop: str):
+    """Behaviour-preserving refactorings written by independent sub-agents (/verif/refactors/*: renames, control-flow
+    restructuring, extracted helpers, hoisted / inlined temporaries, idiom swaps, larger clean-ups; each confirmed by the
+    agent with an equivalence digest and the baseline tests).  Every claimed check must stay silent on every one of them,
+    whichever property the refactoring was aimed at; patches are applied in memory."""
+    root = os.path.join(os.path.dirname(os.path.dirname(os.path.abspath(__file__))), "refactors")
+    jobs = []
+    if not os.path.isdir(root):
+        return jobs
+    for name in sorted(os.listdir(root)):
+        pp = os.path.join(root, name, "patch.diff")
+        if os.path.exists(pp):
+            jobs.append((prop, "refactor", name, open(pp).read(), None))
+    return jobs
+
+
 def corpus(prop: str):
     try:
         mod = importlib.import_module(f"kdverif.corpus.{prop.lower()}")
@@ -113,6 +129,7 @@ def run_for(prop: str, rep=None, verbose=True) -> int:
     for b in benign:
         jobs.append((prop, "benign", b[0], b[1], None))
     jobs += seeded_jobs(prop)
+    jobs += refactor_jobs(prop)
     if not jobs:
         if verbose:
             print(f"[{prop} selftest] no corpus")
@@ -125,12 +142,14 @@ def run_for(prop: str, rep=None, verbose=True) -> int:
     n_s = sum(r[0] == "seeded" for r in results)
     n_m = sum(r[0] == "mutant" for r in results)
     n_b = sum(r[0] == "benign" for r in results)
+    n_r = sum(r[0] == "refactor" for r in results)
+    silent_r = sum(r[2] == "silent" and r[0] == "refactor" for r in results)
     caught = sum(r[2] == "caught" and r[0] == "mutant" for r in results)
     caught_s = sum(r[2] == "caught" and r[0] == "seeded" for r in results)
-    silent = sum(r[2] == "silent" for r in results)
+    silent = sum(r[2] == "silent" and r[0] == "benign" for r in results)
     if verbose:
         print(f"[{prop} selftest] mutants caught {caught}/{n_m}, benign silent {silent}/{n_b}, independent seeded changes "
-              f"caught {caught_s}/{n_s}, stale {len(stale)}")
+              f"caught {caught_s}/{n_s}, independent refactorings silent {silent_r}/{n_r}, stale {len(stale)}")
         for r in bad:
             print(f"ANALYSIS-ERROR property={prop} selftest {r[0]} '{r[1]}': {r[2]} {r[3]}")
         for r in stale:
@@ -159,7 +178,9 @@ def _augment_evidence(prop, results):
         "seeded": sum(r[0] == "seeded" for r in results),
         "seeded_caught": sum(r[2] == "caught" and r[0] == "seeded" for r in results),
         "benign": sum(r[0] == "benign" for r in results),
-        "benign_silent": sum(r[2] == "silent" for r in results),
+        "benign_silent": sum(r[2] == "silent" and r[0] == "benign" for r in results),
+        "refactorings": sum(r[0] == "refactor" for r in results),
+        "refactorings_silent": sum(r[2] == "silent" and r[0] == "refactor" for r in results),
         "stale": sum(r[2] == "stale" for r in results),
         "results": [{"kind": r[0], "name": r[1], "outcome": r[2], "by": r[3]} for r in results],
     }
